@@ -290,10 +290,16 @@ func c18Run(p c18Prog, shared []byte, concurrent bool) []string {
 				// the caller fills the code into ITS packet - through the setter, or in place through the value the getter
 				// hands out (the packet's own storage) - and sends the packet
 				if ak, ok := le.EapTypeData.(*eap.EapAkaPrime); ok {
+					filled := false
 					if a, e := ak.GetAttr(eap.AT_MAC); e == nil && op.A%2 == 0 && len(a.GetValue()) == len(mac) {
 						copy(a.GetValue(), mac)
-					} else if e := ak.SetAttr(eap.AT_MAC, mac); e != nil {
-						return e
+						a2, e2 := ak.GetAttr(eap.AT_MAC) // (a getter that hands out copies leaves the packet as it was)
+						filled = e2 == nil && bytes.Equal(a2.GetValue(), mac)
+					}
+					if !filled {
+						if e := ak.SetAttr(eap.AT_MAC, mac); e != nil {
+							return e
+						}
 					}
 					w, e := le.Marshal()
 					if e != nil {
